@@ -175,7 +175,35 @@ def run(ctx):
         ctx.check('C17.V1', ok, drv.name, 'driver:stack-not-cleared', drv.where(e),
                   'the driver clears the DFS stack before scanning each queued (validation) node',
                   witness=None if ok else {'blocks': (r1 or r2 or [[]])[0]})
-    ctx.floor('C17.V1', 6)
+    # every queued validation node is scanned, also the ones queued while a queued node is scanned: a loop that walks a
+    # container by index up to a size taken once, while its body can make the container grow, leaves the late arrivals out
+    # (validations of validations: their cycles would never be diagnosed)
+    from model import _written_names
+    drv = prog.fn('DependencyScan::RecomputeDirty')
+    nloops = 0
+    for bid, b in drv.blocks.items():
+        t = b.get('term')
+        if not t or t.get('kind') not in ('for', 'while') or len(b['succ']) != 2:
+            continue
+        nloops += 1
+        c = strip(drv.eff_cond(bid))
+        if not (isinstance(c, dict) and c.get('k') == 'bin' and c.get('op') in ('!=', '<')):
+            continue
+        bound = strip(c.get('r'))
+        if not (isinstance(bound, dict) and bound.get('k') == 'var'):
+            continue
+        inside = drv.reachable_from(b['succ'][0]) | {b['succ'][0]}
+        inside = {x for x in inside if bid in drv.reachable_from(x)}
+        decls = [e for e in drv.events('decl') if e['n'] == bound['n'] and e.get('init') is not None]
+        for d in decls:
+            if d['_b'] in inside:
+                continue                # re-read in every iteration
+            conts = {x['n'] for x in walk(d['init']) if isinstance(x, dict) and x.get('k') == 'var'} if 'size' in dstr(d['init']) else set()
+            grows = [e for bb in inside for e in drv.blocks[bb]['ev'] if e['k'] == 'call' and any(kind == 'var' and n_ in conts for kind, n_ in _written_names(drv, e))]
+            ctx.check('C17.V1', not (conts and grows), drv.name, 'worklist:size-taken-once', 'src/graph.cc:%s' % t.get('line'),
+                      'the loop bound `%s` is not a size taken before the loop of a container the loop body can extend (%s)' % (bound['n'], sorted(conts)))
+    ctx.check('C17.V1', nloops >= 1, drv.name, 'worklist:no-loop', drv.loc, 'the driver loops over the queued validation nodes')
+    ctx.floor('C17.V1', 7)
 
     # ---- O2: marks reset before re-scan -----------------------------------------------------------
     R('C17.O2', 'O', 'after a dyndep load, UnmarkDependents precedes RecomputeDirty; every dependent '
